@@ -413,6 +413,36 @@ void Access(const void* addr, std::size_t size, bool write, const void* pc) noex
   AccessImpl(reinterpret_cast<std::uintptr_t>(addr), size, write, pc);
 }
 
+// A block is freed while frees are parked (its address is not handed out again during this run): the free is a write of every byte
+// that has been accessed so far. An access that is not ordered before the free, or that comes after it from a fiber the free is
+// not ordered before, is a race with the end of the object's lifetime (use after free, or freed while still in use).
+void FreeRange(std::uintptr_t a, std::size_t n, const void* pc) noexcept {
+  if (gShadow == nullptr) {
+    return;
+  }
+  if (!gOn || gBusy != 0 || gInSched || sim::Failed() || n > 1024) {
+    ClearRange(a, n);
+    return;
+  }
+  Busy b;
+  for (std::size_t i = 0; i < n; ++i) {
+    gAtoms->erase(a + i);
+    auto it = gShadow->find(a + i);
+    if (it == gShadow->end()) {
+      continue;
+    }
+    if (it->second.atomic) {
+      FreeCell(it->second);
+      gShadow->erase(it);
+      continue;
+    }
+    AccessImpl(a + i, 1, true, pc);
+    if (sim::Failed()) {
+      return;
+    }
+  }
+}
+
 std::uint64_t Accesses() noexcept {
   return gAccesses;
 }
